@@ -25,9 +25,10 @@ PY
 for f in $DEMO; do mv /tmp/$ID.aside/$f $f; done
 T=$(basename $DEMO .rs)
 cargo test --offline -p patronus --test $T > /tmp/$ID.demo_with.log 2>&1; W=$?
-git stash push -q -- $(git diff --name-only)
+# NOTE: `git stash` is shared between worktrees; use reverse-apply of the saved patch instead
+git apply -R /tmp/$ID.patch
 cargo test --offline -p patronus --test $T > /tmp/$ID.demo_without.log 2>&1; WO=$?
-git stash pop -q
+git apply /tmp/$ID.patch
 echo "demo with change exit=$W (want !=0), without change exit=$WO (want 0)"
 mkdir -p /verif/seeded/$ID
 cp /tmp/$ID.patch /verif/seeded/$ID/patch.diff; cp $DEMO /verif/seeded/$ID/
